@@ -202,6 +202,9 @@ pub struct SDefInto {
     x: WriteStream<u32>,
     #[rustradio(into)]
     k: u64,
+    /// a plain field declared *after* the `into` field, with an interchangeable argument type:
+    /// the generated `new()` takes the untagged fields in declaration order
+    m: u32,
     #[rustradio(default)]
     count: u32,
     #[rustradio(default)]
@@ -215,7 +218,7 @@ impl SDefInto {
         if self.seen.len() < 4 {
             self.seen.push(a);
         }
-        f0(a, self.count, self.k as u32)
+        f0(a, self.count, self.k as u32).wrapping_add(self.m.wrapping_mul(5))
     }
 }
 
